@@ -121,6 +121,7 @@ fn run_job(job: Job, miri: bool) -> (Job, Outcome, usize) {
             delay: Delay::None,
             delay_seed: 0,
             delay_scale_us: 0,
+            delay_target: 0,
         });
         return (placeholder, if dead { Outcome::Deadlock(msg) } else { Outcome::Stalled(msg) }, 0);
     }
@@ -232,6 +233,9 @@ fn handle(
                     }
                     rep.map("dataset_init_calls_minus_queue", &format!("{}", res.dataset_inits as i64 - sc.queue as i64));
                     rep.map("delay_profile", sc.delay.name());
+                    if sc.delay == Delay::TargetPoint {
+                        rep.map("targeted_hook_point", &sc.delay_target.to_string());
+                    }
                     rep.map("threads", &sc.threads.to_string());
                     rep.map("queue", &sc.queue.to_string());
                     if rep.want_sample() && entries.len() > 20 && entries.len() < 400 {
@@ -502,17 +506,27 @@ fn memory_mode(ctx: &Ctx, rep: &mut Report) {
         let job = if real {
             let mut r2 = Rng::derive(&[ctx.seed, ctx.shard, 1, 72]);
             let mut sc = gen_real(&mut r2, false, ctx.shard, false);
-            // n records of similar size
+            // n * 10 records of similar size; FASTA with 1-6 sequence lines per record
+            let fasta = ctx.shard % 4 == 3;
             let mut input = vec![];
             for i in 0..n * 10 {
-                input.extend_from_slice(format!("@r{}_{}\n", ctx.shard, i).as_bytes());
                 let l = 10 + (i * 7) % 40;
-                input.extend((0..l).map(|k| b"ACGT"[k % 4]));
-                input.extend_from_slice(b"\n+\n");
-                input.extend((0..l).map(|_| b'I'));
-                input.push(b'\n');
+                if fasta {
+                    input.extend_from_slice(format!(">r{}_{}\n", ctx.shard, i).as_bytes());
+                    let nl = 1 + (i * 5 + i / 7) % 6;
+                    for j in 0..nl {
+                        input.extend((0..l / nl + 1).map(|k| b"ACGT"[(k + j) % 4]));
+                        input.push(b'\n');
+                    }
+                } else {
+                    input.extend_from_slice(format!("@r{}_{}\n", ctx.shard, i).as_bytes());
+                    input.extend((0..l).map(|k| b"ACGT"[k % 4]));
+                    input.extend_from_slice(b"\n+\n");
+                    input.extend((0..l).map(|_| b'I'));
+                    input.push(b'\n');
+                }
             }
-            sc.fmt = seqio_verif::refmodel::Fmt::Fastq;
+            sc.fmt = if fasta { seqio_verif::refmodel::Fmt::Fasta } else { seqio_verif::refmodel::Fmt::Fastq };
             sc.input = std::sync::Arc::new(input);
             sc.n_valid = n * 10;
             sc.has_error = false;
@@ -520,7 +534,7 @@ fn memory_mode(ctx: &Ctx, rep: &mut Report) {
             sc.chunk = 100_000;
             sc.threads = threads;
             sc.queue = queue;
-            sc.api = Api::PerRecordInit;
+            sc.api = [Api::PerRecordInit, Api::PerRecord, Api::ReadParallel][(ctx.shard / 4 % 3) as usize];
             sc.stop_after = None;
             sc.init_fail = RealInitFail::None;
             sc.delay = Delay::SlowConsumer;
@@ -537,6 +551,7 @@ fn memory_mode(ctx: &Ctx, rep: &mut Report) {
                 delay: Delay::SlowConsumer,
                 delay_seed: rng.next(),
                 delay_scale_us: 2,
+                delay_target: 0,
             })
         };
         rep.evaluations += 1;
@@ -573,7 +588,13 @@ fn memory_mode(ctx: &Ctx, rep: &mut Report) {
     pipe::LOG_ON.store(true, Ordering::SeqCst);
     let (n1, p1, _) = peaks[0];
     let (n2, p2, _) = peaks[1];
-    rep.sample(json!({"mode": "memory", "reader": if real { "parallel_fastq_init" } else { "mock" }, "threads": threads, "queue": queue,
+    let reader_name = if !real {
+        "mock".to_string()
+    } else {
+        format!("{} via {:?}", if ctx.shard % 4 == 3 { "fasta (1-6 lines per record)" } else { "fastq" }, [Api::PerRecordInit, Api::PerRecord, Api::ReadParallel][(ctx.shard / 4 % 3) as usize])
+    };
+    rep.map("memory_pair_reader", &reader_name);
+    rep.sample(json!({"mode": "memory", "reader": reader_name, "threads": threads, "queue": queue,
         "batches_small": n1, "peak_bytes_small": p1, "batches_large": n2, "peak_bytes_large": p2}));
     rep.count("memory_pairs");
     rep.max("max_peak_ratio_percent", (p2 * 100 / p1.max(1)) as u64);
